@@ -63,7 +63,7 @@ RULE_NAMES = ["types_unique", "bases_exist", "acyclic", "types_not_reserved", "m
               "members_not_reserved", "constants_unique", "constants_not_reserved", "functions_unique",
               "functions_not_reserved", "no_redeclared_member", "constructor_matches", "type_shapes",
               "invariant_descriptions_unique", "references_resolvable", "patterns_anchored",
-              "stacked_members_unique"]
+              "stacked_members_unique", "toplevel_names_unique"]
 
 HEADER = """From Coq Require Import List NArith Bool.
 From Coq Require Strings.String.
